@@ -320,6 +320,47 @@ def run(ctx):
             fails.append({"why": "after a call that raised (%s) the next valid integrate(%r) on the same object %s: t=%r status=%d"
                                  % (name, tm, ("raised " + err) if err else "did not reach its target", sim.t, sim._status),
                           "scenario": name, "integrator_after": sim.integrator})
+    # history vs fresh: after any call sequence (exact or not, either direction, an exit raised and cleared), the object must
+    # continue to the next target exactly like a FRESH simulation holding the same particles, time, dt and settings: integrate()
+    # keeps no memory between calls (fixed-step integrators in safe mode: bit for bit, including t, dt and the step count taken)
+    for rep in range(ctx.scale(12, 80)):
+        integ = rng.choice(["leapfrog", "whfast", "saba", "eos", "none", "sei"])
+        t0 = rng.choice([0.0, rng.uniform(-3, 3)]); dt0 = rng.choice([0.05, 0.07, 0.125]) * rng.choice([1, -1])
+        hist = new_sim(rebound, integ, t0, dt0)
+        import warnings as _w2
+        with _w2.catch_warnings():
+            _w2.simplefilter("ignore")
+            ops = []
+            for _ in range(rng.randint(1, 3)):
+                tm_ = hist.t + rng.choice([1, 1, -1]) * rng.choice([0.0, 0.03, 0.3, 1.0, 0.07 * 5])
+                ex_ = rng.choice([0, 1]); ops.append((tm_, ex_))
+                try: hist.integrate(tm_, exact_finish_time=ex_)
+                except Exception: pass
+            if rng.random() < 0.3:
+                # an exit condition raised once and left behind: the next call must start RUNNING again
+                hist.exit_max_distance = 1e-3
+                try: hist.integrate(hist.t + 0.5)
+                except Exception: pass
+                hist.exit_max_distance = 0.0; ops.append(("escape raised once", None))
+            fresh = rebound.Simulation(); fresh.G = hist.G; fresh.t = hist.t
+            for p_ in hist.particles: fresh.add(m=p_.m, x=p_.x, y=p_.y, z=p_.z, vx=p_.vx, vy=p_.vy, vz=p_.vz)
+            if integ == "sei": fresh.ri_sei.OMEGA = 1.0
+            fresh.integrator = integ; fresh.dt = hist.dt
+            tm = hist.t + rng.choice([1, -1]) * rng.choice([0.3, 1.0, 0.07 * 3, 0.02]); ex = rng.choice([0, 1])
+            sa0, sb0 = hist.steps_done, fresh.steps_done
+            ea = eb = None
+            try: hist.integrate(tm, exact_finish_time=ex)
+            except Exception as e_: ea = repr(e_)[:80]
+            try: fresh.integrate(tm, exact_finish_time=ex)
+            except Exception as e_: eb = repr(e_)[:80]
+        va = [x for p_ in hist.particles for x in (p_.x, p_.y, p_.z, p_.vx, p_.vy, p_.vz)] + [hist.t, hist.dt]
+        vb = [x for p_ in fresh.particles for x in (p_.x, p_.y, p_.z, p_.vx, p_.vy, p_.vz)] + [fresh.t, fresh.dt]
+        ctx.case(key=("history-vs-fresh", integ, ex))
+        if ea != eb or hist._status != fresh._status or hist.steps_done - sa0 != fresh.steps_done - sb0 or any(not vlib.same_bits(a_, b_) for a_, b_ in zip(va, vb)):
+            fails.append({"why": "integrate(%r, exact_finish_time=%d) on an object with the call history %r differs from the same call on a fresh simulation "
+                                 "holding the same particles, t and dt: status %d/%d, steps %d/%d, t %r/%r, dt %r/%r, %s/%s"
+                                 % (tm, ex, ops, hist._status, fresh._status, hist.steps_done - sa0, fresh.steps_done - sb0, hist.t, fresh.t, hist.dt, fresh.dt, ea, eb),
+                          "integrator": integ, "t0": t0, "dt": dt0, "history": jsafe(ops), "tmax": tm, "exact": ex})
     # a first step far below the resolution of t is a VALID input for the adaptive integrators (dt is only their first
     # guess and grows by itself): large epochs (Julian dates), continued runs, both directions, both finishing modes
     for rep in range(ctx.scale(6, 30)):
